@@ -33,8 +33,30 @@ func withW(over map[string]int) map[string]int {
 
 var profiles = map[string]*Profile{
 	"full": {Name: "full", MaxConns: 6, MaxSess: 3, Len: 80, W: baseW, StepPct: 80, SnapPct: 10},
+	"C01": {Name: "C01", MaxConns: 6, MaxSess: 3, Len: 90, W: withW(map[string]int{"subscribe": 8, "comp_list": 5, "comp_update": 8, "unknown": 0, "undecodable": 0, "receipt": 0, "latency": 0, "ping_resp": 0}), StepPct: 80, SnapPct: 30},
+	"C02": {Name: "C02", MaxConns: 6, MaxSess: 2, Len: 90, StepPct: 85, SnapPct: 3,
+		W: map[string]int{"connect": 5, "disconnect": 5, "join": 16, "entity_add": 12, "entity_delete": 8, "pose": 12, "tick": 8, "step": 4, "custom": 8, "action": 8, "asset": 6, "comp_add": 2, "type_add": 1}},
+	"C03": {Name: "C03", MaxConns: 6, MaxSess: 3, Len: 90, W: withW(map[string]int{"join": 20, "disconnect": 5, "latency": 0, "ping_resp": 0, "receipt": 0}), StepPct: 85, SnapPct: 60},
+	"C04": {Name: "C04", MaxConns: 5, MaxSess: 3, Len: 100, W: withW(map[string]int{"tick": 3, "pose": 3, "comp_update": 3, "custom": 2, "receipt": 3, "dagaz": 3, "ping": 2}), StepPct: 90, SnapPct: 45},
+	"C05": {Name: "C05", MaxConns: 6, MaxSess: 2, Len: 90, StepPct: 85, SnapPct: 15,
+		W: map[string]int{"connect": 4, "disconnect": 6, "join": 14, "entity_add": 14, "entity_delete": 14, "pose": 14, "tick": 8, "step": 3, "asset": 12, "action": 2}},
+	"C06": {Name: "C06", MaxConns: 6, MaxSess: 2, Len: 100, StepPct: 88, SnapPct: 25,
+		W: map[string]int{"connect": 6, "disconnect": 10, "join": 16, "entity_add": 14, "entity_delete": 3, "type_add": 5, "comp_add": 9, "subscribe": 6, "action": 8, "asset": 8, "pose": 3, "tick": 3, "step": 3, "undecodable": 2, "receipt": 1, "comp_delete": 1}},
+	"C07": {Name: "C07", MaxConns: 6, MaxSess: 4, Len: 110, StepPct: 85, SnapPct: 40,
+		W: map[string]int{"connect": 10, "disconnect": 14, "join": 40, "entity_add": 3, "step": 4, "tick": 2, "undecodable": 2, "ping": 1}},
+	"C10": {Name: "C10", MaxConns: 6, MaxSess: 4, Len: 140, StepPct: 88, SnapPct: 12,
+		W: map[string]int{"connect": 6, "disconnect": 8, "join": 20, "entity_add": 16, "entity_delete": 8, "type_add": 10, "get_name": 5, "get_id": 5, "asset": 10, "step": 3, "tick": 1}},
+	"C11": {Name: "C11", MaxConns: 5, MaxSess: 2, Len: 120, StepPct: 55, SnapPct: 15,
+		W: map[string]int{"connect": 3, "disconnect": 3, "join": 10, "entity_add": 10, "entity_delete": 6, "pose": 45, "tick": 16, "step": 14, "custom": 1, "comp_update": 3}},
+	"C12": {Name: "C12", MaxConns: 5, MaxSess: 2, Len: 110, StepPct: 85, SnapPct: 20,
+		W: map[string]int{"connect": 3, "disconnect": 4, "join": 10, "entity_add": 10, "entity_delete": 7, "type_add": 8, "get_name": 4, "get_id": 4, "comp_add": 16, "comp_delete": 9, "comp_update": 12, "comp_list": 9, "subscribe": 4, "tick": 8, "step": 4}},
+	"C13": {Name: "C13", MaxConns: 6, MaxSess: 2, Len: 110, StepPct: 85, SnapPct: 15,
+		W: map[string]int{"connect": 3, "disconnect": 5, "join": 12, "entity_add": 8, "entity_delete": 3, "type_add": 6, "comp_add": 12, "comp_delete": 7, "comp_update": 14, "subscribe": 14, "unsubscribe": 8, "tick": 9, "step": 4}},
 	"C14": {Name: "C14", MaxConns: 8, MaxSess: 2, Len: 90, StepPct: 85, SnapPct: 2,
 		W: map[string]int{"connect": 4, "disconnect": 2, "join": 12, "custom": 60, "entity_add": 2, "tick": 1, "step": 4, "unknown": 1}},
+	"C16": {Name: "C16", MaxConns: 5, MaxSess: 2, Len: 100, StepPct: 88, SnapPct: 20,
+		W: map[string]int{"connect": 3, "disconnect": 5, "join": 12, "entity_add": 12, "entity_delete": 7, "action": 30, "asset": 18, "step": 3, "tick": 1}},
+	"C17": {Name: "C17", MaxConns: 5, MaxSess: 2, Len: 70, W: withW(map[string]int{"latency": 0, "ping_resp": 0, "receipt": 0, "dagaz": 0}), StepPct: 85, SnapPct: 20},
 	"C18": {Name: "C18", MaxConns: 4, MaxSess: 2, Len: 120, StepPct: 90, SnapPct: 2,
 		W: map[string]int{"connect": 2, "disconnect": 1, "join": 6, "latency": 12, "ping_resp": 60, "ping": 3, "entity_add": 2, "tick": 1, "step": 3}},
 }
@@ -91,6 +113,14 @@ func main() {
 			b, _ := json.MarshalIndent(stats, "", " ")
 			os.WriteFile(*statsF, b, 0644)
 		}
+	case "flagrun":
+		fs := flag.NewFlagSet("flagrun", flag.ExitOnError)
+		in := fs.String("in", "", "trace of histories run with no flag")
+		out := fs.String("out", "traceF.txt", "trace file")
+		seed := fs.Uint64("seed", 1, "seed")
+		per := fs.Int("per", 4, "flag sets per history (0 = all 1024 subsets spread over the histories, 16 each)")
+		fs.Parse(os.Args[2:])
+		flagrun(*in, *out, *seed, *per)
 	case "replay":
 		fs := flag.NewFlagSet("replay", flag.ExitOnError)
 		in := fs.String("in", "", "history (or trace) file: H / O / E lines are used")
@@ -115,6 +145,41 @@ func parseInts(s string) []int64 {
 	return out
 }
 
+func parseHeader(line string) (int, Config) {
+	v := parseInts(line[1:])
+	hid := int(v[0])
+	nf := int(v[1])
+	cfg := Config{}
+	for i := 0; i < nf; i++ {
+		cfg.Flags = append(cfg.Flags, uint32(v[2+i]))
+	}
+	cfg.Vikja, cfg.Odal, cfg.Dagaz = v[2+nf] != 0, v[3+nf] != 0, v[4+nf] != 0
+	return hid, cfg
+}
+
+func runOp(e *Env, line string) {
+	v := parseInts(line[1:])
+	switch v[0] {
+	case 1:
+		e.Connect(int(v[1]))
+	case 2:
+		rd := &intReader{v: v[2:]}
+		r := DecReq(rd)
+		if rd.err {
+			panic("bad request in history: " + line)
+		}
+		e.Send(int(v[1]), r)
+	case 3:
+		e.Step(int(v[1]))
+	case 4:
+		e.Tick(uint32(v[1]))
+	case 5:
+		e.Disconnect(int(v[1]))
+	case 6:
+		e.Snap()
+	}
+}
+
 func replay(in, out string) {
 	fi, err := os.Open(in)
 	if err != nil {
@@ -136,36 +201,10 @@ func replay(in, out string) {
 		}
 		switch line[0] {
 		case 'H':
-			v := parseInts(line[1:])
-			hid := int(v[0])
-			nf := int(v[1])
-			cfg := Config{}
-			for i := 0; i < nf; i++ {
-				cfg.Flags = append(cfg.Flags, uint32(v[2+i]))
-			}
-			cfg.Vikja, cfg.Odal, cfg.Dagaz = v[2+nf] != 0, v[3+nf] != 0, v[4+nf] != 0
+			hid, cfg := parseHeader(line)
 			e = NewEnv(cfg, w, hid)
 		case 'O':
-			v := parseInts(line[1:])
-			switch v[0] {
-			case 1:
-				e.Connect(int(v[1]))
-			case 2:
-				rd := &intReader{v: v[2:]}
-				r := DecReq(rd)
-				if rd.err {
-					panic("bad request in history: " + line)
-				}
-				e.Send(int(v[1]), r)
-			case 3:
-				e.Step(int(v[1]))
-			case 4:
-				e.Tick(uint32(v[1]))
-			case 5:
-				e.Disconnect(int(v[1]))
-			case 6:
-				e.Snap()
-			}
+			runOp(e, line)
 		case 'E':
 			e.Close()
 			e = nil
@@ -173,6 +212,91 @@ func replay(in, out string) {
 	}
 	if e != nil {
 		e.Close()
+	}
+	w.Flush()
+	fo.Close()
+}
+
+// flagrun replays every history of a flag-free trace under sampled flag sets; the history id of
+// the k-th flagged run of history h is h*1000+k.
+func flagrun(in, out string, seed uint64, per int) {
+	fi, err := os.Open(in)
+	if err != nil {
+		panic(err)
+	}
+	defer fi.Close()
+	fo, err := os.Create(out)
+	if err != nil {
+		panic(err)
+	}
+	w := bufio.NewWriterSize(fo, 1<<20)
+	sc := bufio.NewScanner(fi)
+	sc.Buffer(make([]byte, 1<<20), 1<<26)
+	r := &rng{seed}
+	var ops []string
+	var hid int
+	var cfg Config
+	nh := 0
+	flush := func() {
+		var sets [][]uint32
+		if per == 0 {
+			for k := 0; k < 16; k++ {
+				mask := (nh*16 + k) % 1024
+				var f []uint32
+				for b := 0; b < 10; b++ {
+					if mask&(1<<b) != 0 {
+						f = append(f, uint32(b))
+					}
+				}
+				sets = append(sets, f)
+			}
+		} else {
+			for k := 0; k < per; k++ {
+				var f []uint32
+				switch x := (nh*per + k) % 16; {
+				case x < 10:
+					f = []uint32{uint32(x)}
+				case x == 10:
+					f = []uint32{0, 1, 2, 3, 4, 5, 6, 7, 8, 9}
+				case x == 11:
+					f = []uint32{12}
+				case x == 12:
+					f = []uint32{uint32(r.intn(10)), 15, 11}
+				default:
+					for b := 0; b < 10; b++ {
+						if r.chance(40) {
+							f = append(f, uint32(b))
+						}
+					}
+				}
+				sets = append(sets, f)
+			}
+		}
+		for k, f := range sets {
+			c := cfg
+			c.Flags = f
+			e := NewEnv(c, w, hid*1000+k)
+			for _, l := range ops {
+				runOp(e, l)
+			}
+			e.Close()
+		}
+		nh++
+	}
+	for sc.Scan() {
+		line := sc.Text()
+		if len(line) == 0 {
+			continue
+		}
+		switch line[0] {
+		case 'H':
+			hid, cfg = parseHeader(line)
+			ops = nil
+		case 'O':
+			ops = append(ops, line)
+		case 'E':
+			flush()
+		}
 	}
 	w.Flush()
 	fo.Close()
